@@ -9,9 +9,11 @@ theorem C08_eq_symm (a b : InnerConst) : InnerConst.keyEq a b = InnerConst.keyEq
 theorem C08_eq_trans (a b c : InnerConst) (h1 : InnerConst.keyEq a b = true) (h2 : InnerConst.keyEq b c = true) :
     InnerConst.keyEq a c = true := keyEq_trans a b c h1 h2
 
-/-- the dataclass equality of whole CodeData values (nested code included) is reflexive and symmetric -/
+/-- the dataclass equality of whole CodeData values (nested code included) is an equivalence relation too -/
 theorem C08_data_eq_refl (d : CodeData) : CodeData.beq d d = true := CodeData.beq_refl d
 theorem C08_data_eq_symm (a b : CodeData) : CodeData.beq a b = CodeData.beq b a := CodeData.beq_symm a b
+theorem C08_data_eq_trans (a b c : CodeData) (h1 : CodeData.beq a b = true) (h2 : CodeData.beq b c = true) : CodeData.beq a c = true :=
+  CodeData.beq_trans a b c h1 h2
 
 /-- **Type-exact**: equality distinguishes what CPython's constant table distinguishes: values of different types
     are never equal, whatever their numeric value … -/
